@@ -518,8 +518,54 @@ func nilClass(v ssa.Value) (isNil, known bool) {
 		}
 	case *ssa.MakeInterface:
 		return false, true
+	case *ssa.Call:
+		// constructors of errors never return nil; a module function all of whose returns are non-nil does not either
+		if f := x.Call.StaticCallee(); f != nil && neverNil(f, 0) {
+			return false, true
+		}
 	}
 	return false, false
+}
+
+var neverNilBase = map[string]bool{"fmt.Errorf": true, "errors.New": true, "github.com/pkg/errors.New": true, "github.com/pkg/errors.Errorf": true}
+var neverNilCache = map[*ssa.Function]int{} // 0 unknown, 1 yes, 2 no, 3 in progress
+
+// neverNil: the function has a single result and every return hands out a value known to be non-nil.
+func neverNil(f *ssa.Function, depth int) bool {
+	if neverNilBase[f.String()] {
+		return true
+	}
+	switch neverNilCache[f] {
+	case 1:
+		return true
+	case 2, 3:
+		return false
+	}
+	if depth > 4 || len(f.Blocks) == 0 || f.Signature.Results().Len() != 1 {
+		neverNilCache[f] = 2
+		return false
+	}
+	neverNilCache[f] = 3
+	ok, any := true, false
+	for _, b := range f.Blocks {
+		for _, in := range b.Instrs {
+			r, isRet := in.(*ssa.Return)
+			if !isRet {
+				continue
+			}
+			any = true
+			isNil, known := nilClass(r.Results[0])
+			if !known || isNil {
+				ok = false
+			}
+		}
+	}
+	if ok && any {
+		neverNilCache[f] = 1
+		return true
+	}
+	neverNilCache[f] = 2
+	return false
 }
 
 func phiNilFacts(facts string, from, to *ssa.BasicBlock) string {
